@@ -33,6 +33,9 @@ fn facts(case: &Case, run: &Run) -> Result<Facts, Fail> {
                 if *addr == seq {
                     let t = match case.programs[*tid][*op] {
                         Op::Update(t) | Op::TryUpdate(t) => t,
+                        Op::UpdateBad(t) | Op::TryUpdateBad(t) => {
+                            return Err(Fail::new("commit-by-invalid-update", format!("thread {tid} committed base time {t} with a voucher that does not match it")))
+                        }
                         other => return Err(Fail::new("commit-by-non-update", format!("thread {tid} stored to the sequence word during {other:?}"))),
                     };
                     if *idx != commit_base.len() {
@@ -64,34 +67,76 @@ pub fn check_run(case: &Case, run: &Run) -> Result<(bool, bool), Fail> {
             if let Op::Update(t) | Op::TryUpdate(t) = op {
                 valid.push((*t, voucher_bits(VOUCH.vouch(*t))));
             }
+            // (the pairs of UpdateBad / TryUpdateBad are never valid)
         }
     }
 
-    // Replay the writers in lock-acquisition order through the monotone filter.
+    // Replay the writers' critical sections in order through the monotone filter.  A
+    // writer that panics inside its critical section (a rejected pair) poisons the lock;
+    // the next critical section is then only the recovery (`lock`, drop the guard,
+    // `clear_poison`, `lock` again; `try_update` clears the poison and gives up).
     let mut current = 0u64;
     let mut expected_commits: Vec<u64> = vec![];
     let mut expected_try: std::collections::HashMap<(usize, usize), bool> = Default::default();
+    let mut expected_panic: std::collections::HashSet<(usize, usize)> = Default::default();
+    let mut poisoned = false;
+    // (thread, operation, recovery section)
+    let mut section: Option<(usize, usize, bool)> = None;
+    let mut failed_try: Vec<(usize, usize)> = vec![];
+    let mut close = |section: &mut Option<(usize, usize, bool)>, current: &mut u64, poisoned: &mut bool| -> Result<(), Fail> {
+        let Some((tid, op, recovery)) = section.take() else { return Ok(()) };
+        let program_op = case.programs[tid][op];
+        if recovery {
+            if matches!(program_op, Op::TryUpdate(_) | Op::TryUpdateBad(_)) {
+                expected_try.insert((tid, op), false);
+            }
+            return Ok(());
+        }
+        if matches!(run.results[tid].get(op), Some(OpResult::Panicked(_))) {
+            *poisoned = true;
+        }
+        match program_op {
+            Op::Update(t) | Op::TryUpdate(t) => {
+                let accepted = t >= *current;
+                if accepted {
+                    *current = t;
+                    expected_commits.push(t);
+                }
+                if matches!(program_op, Op::TryUpdate(_)) {
+                    expected_try.insert((tid, op), accepted);
+                }
+            }
+            Op::UpdateBad(t) | Op::TryUpdateBad(t) => {
+                // Older: skipped like any other update; otherwise rejected by the crate's assertion.
+                if t >= *current {
+                    expected_panic.insert((tid, op));
+                } else if matches!(program_op, Op::TryUpdateBad(_)) {
+                    expected_try.insert((tid, op), false);
+                }
+            }
+            other => return Err(Fail::new("lock-by-reader", format!("thread {tid} took the writer lock during {other:?}"))),
+        }
+        Ok(())
+    };
     for e in &run.trace {
         match e {
             Event::Lock { tid, op } | Event::TryLock { tid, op, ok: true } => {
-                let t = match case.programs[*tid][*op] {
-                    Op::Update(t) | Op::TryUpdate(t) => t,
-                    other => return Err(Fail::new("lock-by-reader", format!("thread {tid} took the writer lock during {other:?}"))),
-                };
-                let accepted = t >= current;
-                if accepted {
-                    current = t;
-                    expected_commits.push(t);
+                close(&mut section, &mut current, &mut poisoned)?;
+                if matches!(case.programs[*tid][*op], Op::Snapshot | Op::Sequence) {
+                    return Err(Fail::new("lock-by-reader", format!("thread {tid} took the writer lock during {:?}", case.programs[*tid][*op])));
                 }
-                if matches!(case.programs[*tid][*op], Op::TryUpdate(_)) {
-                    expected_try.insert((*tid, *op), accepted);
-                }
+                section = Some((*tid, *op, poisoned));
+                poisoned = false;
             }
-            Event::TryLock { tid, op, ok: false } => {
-                expected_try.insert((*tid, *op), false);
-            }
+            Event::Unlock { .. } => close(&mut section, &mut current, &mut poisoned)?,
+            Event::TryLock { tid, op, ok: false } => failed_try.push((*tid, *op)),
             _ => {}
         }
+    }
+    close(&mut section, &mut current, &mut poisoned)?;
+    drop(close);
+    for key in failed_try {
+        expected_try.insert(key, false);
     }
     if f.commit_base[1..] != expected_commits[..] {
         return Err(Fail::new(
@@ -116,7 +161,16 @@ pub fn check_run(case: &Case, run: &Run) -> Result<(bool, bool), Fail> {
             let begin = run.trace.iter().position(|e| matches!(e, Event::OpBegin { tid: t, op: o, .. } if *t == tid && *o == i));
             let end = run.trace.iter().position(|e| matches!(e, Event::OpEnd { tid: t, op: o } if *t == tid && *o == i));
             match (op, r) {
+                (Op::UpdateBad(_) | Op::TryUpdateBad(_), OpResult::Panicked(msg)) if expected_panic.contains(&(tid, i)) && msg.contains("BASE_TIME_CHECK") => {}
                 (_, OpResult::Panicked(msg)) => return Err(Fail::new("panic", format!("thread {tid} panicked in {op:?}: {msg}"))),
+                // (an implementation that refused the pair without panicking would be as good: what
+                // matters is that it is never committed, which the commit replay above decides)
+                (Op::UpdateBad(_), OpResult::Updated) => {}
+                (Op::TryUpdateBad(t), OpResult::TryUpdated(ok)) => {
+                    if *ok {
+                        return Err(Fail::new("try_update:return", format!("thread {tid} try_update({t}) with a mismatched voucher returned true")));
+                    }
+                }
                 (Op::Snapshot, OpResult::Snapshot { base, voucher }) => {
                     any_snapshot = true;
                     if !valid.contains(&(*base, *voucher)) {
@@ -202,20 +256,25 @@ pub fn check_case(case: &Case) -> CaseResult {
     );
     let (nontrivial, during) = check_run(case, &run)?;
     let writers = case.programs.iter().filter(|p| p.iter().any(|o| matches!(o, Op::Update(_) | Op::TryUpdate(_)))).count();
+    let rejected = run.results.iter().flatten().filter(|r| matches!(r, OpResult::Panicked(_))).count();
     Ok(Outcome::new(nontrivial)
         .label_if(during, "commit_store_during_a_snapshot")
         .label_if(run.stale_reads > 0, "stale_read_taken")
         .label_if(writers >= 2, "concurrent_writers")
+        .label_if(rejected > 0, "invalid_update_rejected")
         .label_if(run.try_lock_calls.iter().sum::<usize>() > 0, "try_update")
         .label_if(run.loads.iter().any(|l| *l > 8), "reader_retry_or_long_thread"))
 }
 
 fn op() -> impl Strategy<Value = Op> {
     prop_oneof![
-        4 => Just(Op::Snapshot),
-        3 => (1u64..7).prop_map(Op::Update),
-        2 => (1u64..7).prop_map(Op::TryUpdate),
-        1 => Just(Op::Sequence),
+        8 => Just(Op::Snapshot),
+        6 => (1u64..7).prop_map(Op::Update),
+        4 => (1u64..7).prop_map(Op::TryUpdate),
+        2 => Just(Op::Sequence),
+        // Rejected updates (the writer panics while it holds the lock, which poisons it).
+        1 => (1u64..7).prop_map(Op::UpdateBad),
+        1 => (1u64..7).prop_map(Op::TryUpdateBad),
     ]
 }
 
@@ -253,6 +312,7 @@ fn bounded_preemption_cases(preemptions: usize) -> Vec<Case> {
         vec![vec![Op::Snapshot, Op::Snapshot], vec![Op::Update(3), Op::Update(2), Op::Update(5)]],
         vec![vec![Op::Snapshot], vec![Op::Update(4)], vec![Op::TryUpdate(6)]],
         vec![vec![Op::TryUpdate(2), Op::Snapshot], vec![Op::Update(3), Op::Snapshot]],
+        vec![vec![Op::UpdateBad(4), Op::Update(3), Op::Snapshot], vec![Op::Update(2), Op::TryUpdate(5), Op::Snapshot]],
     ];
     let mut out = vec![];
     for p in programs {
@@ -290,7 +350,7 @@ pub fn run(ctx: &Ctx, rep: &mut Report) {
     let pre = ctx.tier.pick(2, 3);
     engine::enumerate(ctx, rep, "bounded-preemptions", bounded_preemption_cases(pre).into_iter(), check_case);
     rep.sub_set("bounded-preemptions", "max_preemptions", json!(pre));
-    rep.sub_set("bounded-preemptions", "what", json!("four fixed programs x every schedule with up to max_preemptions switch points (run lengths from {0,1,2,3,4,5,6,8,10,13}), latest-only reads"));
+    rep.sub_set("bounded-preemptions", "what", json!("five fixed programs x every schedule with up to max_preemptions switch points (run lengths from {0,1,2,3,4,5,6,8,10,13}), latest-only reads"));
     rep.sub_set("bounded-preemptions", "exhaustive", json!(true));
     let cases = ctx.share(ctx.tier.pick(24_000, 2_400_000));
     engine::drive(ctx, rep, "random", case_strategy(3, 3), cases, check_case);
@@ -309,7 +369,7 @@ fn replay(_ctx: &Ctx, _group: &str, case: &Value) -> CaseResult {
 pub fn def() -> PropDef {
     PropDef {
         id: "C13",
-        rule: "A case is (2..3 thread programs of 1..3 operations from snapshot / update(t) / try_update(t) / sequence with t from a small non-monotone set; a schedule: a list of (thread choice, uninterrupted run length) segments; a list of reads-from choices). Each logical thread is an OS thread that only runs while it holds the harness's baton, handed over at every hooked atomic load/store and lock/try_lock/unlock (vouched_time verif_sync hook), so the generated schedule fully determines the interleaving; atomic operations execute against a view-based release/acquire memory model owned by the harness: a load may read any message at or above the thread's view of that location (the generated choice picks which), Acquire loads join the message's released view, Relaxed operations transfer nothing, lock/unlock are acquire/release - so the stale reads a weakened ordering would permit are generated even though the host is x86. Oracles: no panic (the crate's internal voucher check is its own tearing detector); every snapshot pair is the epoch pair or a pair passed to some update; per-thread snapshot base times never decrease (own accepted updates included); a snapshot's base time is >= that of every commit in the thread's view of the sequence word when it began (happens-before), and, in executions without any stale read, >= that of every commit completed before it began; replaying the updates in lock-acquisition order through the monotone filter predicts exactly the commit stores, every try_update return value, and the final pair and sequence number read after joining. writer-laps-reader biases towards long writer runs between a reader's loads; bounded-preemptions enumerates every schedule with <= 2 (3) preemptions for four fixed programs. Non-trivial: a case with a snapshot during which a commit store occurred, or in which a non-latest read was taken. Distinct: hash of the serialised case / by enumeration.",
+        rule: "A case is (2..3 thread programs of 1..3 operations from snapshot / update(t) / try_update(t) / sequence with t from a small non-monotone set, and (one operation in eleven) update / try_update with a voucher that does not match the base time, which the crate rejects by panicking inside the critical section - the lock is then poisoned and the next writer recovers; a schedule: a list of (thread choice, uninterrupted run length) segments; a list of reads-from choices). Each logical thread is an OS thread that only runs while it holds the harness's baton, handed over at every hooked atomic load/store and lock/try_lock/unlock (vouched_time verif_sync hook), so the generated schedule fully determines the interleaving; atomic operations execute against a view-based release/acquire memory model owned by the harness: a load may read any message at or above the thread's view of that location (the generated choice picks which), Acquire loads join the message's released view, Relaxed operations transfer nothing, lock/unlock are acquire/release - so the stale reads a weakened ordering would permit are generated even though the host is x86. Oracles: no panic (the crate's internal voucher check is its own tearing detector); every snapshot pair is the epoch pair or a pair passed to some update; per-thread snapshot base times never decrease (own accepted updates included); a snapshot's base time is >= that of every commit in the thread's view of the sequence word when it began (happens-before), and, in executions without any stale read, >= that of every commit completed before it began; replaying the critical sections in order through the monotone filter (a rejected pair changes nothing; the section after a panic is the poison recovery) predicts exactly the commit stores, every try_update return value, and the final pair and sequence number read after joining. writer-laps-reader biases towards long writer runs between a reader's loads; bounded-preemptions enumerates every schedule with <= 2 (3) preemptions for five fixed programs. Non-trivial: a case with a snapshot during which a commit store occurred, or in which a non-latest read was taken. Distinct: hash of the serialised case / by enumeration.",
         assumptions: &[
             "the memory model is the promise-free release/acquire fragment: every execution it produces is allowed by the C++20/Rust model; load-buffering behaviours that need promises are not generated; SeqCst, if introduced, is executed as 'read latest + full view transfer'",
             "stores are appended at the end of the modification order (writers are serialised by the lock)",
